@@ -181,6 +181,8 @@ def build():
          modifies=[], allow_decorators=["staticmethod"],
          call_ensures=[], replay_seeds={"time_string": ["-1", "2", "+3", "1.5s", "100ms", "-2.5"]})
 
+    C.finite_checks.append(common.native_demo_check(
+        "c12_nan_passes_range_check.py", "nan is rejected by every ranged numeric validator (float / num / int ranges)"))
     # ---- list normalisation of non-string items (the split of real strings is not modelled)
     for fn_ in ("string_to_list", "string_to_event_list"):
         C.fn("Util." + fn_, params=dict(string=Union(NoneT, Bool, Int, Real, Const(""), Seq(Int))),
